@@ -14,6 +14,7 @@ import numpy as np
 from .interfaces import ModelInterface, SolverMixin, SolutionStatus
 from .models import BaseModel
 from ..exceptions import (
+    DuplicateNameError,
     InitialisationError,
     NonConvergenceError,
 )
@@ -73,6 +74,14 @@ class BaseLinker(SolverMixin, ModelInterface):
 
         self.__dict__['submodels'] = submodels
         self.__dict__['name'] = name
+
+        # The linker's own results are reported under `name`, alongside those
+        # of the submodels under their identifiers (e.g. in `to_dataframes()`)
+        if name in submodels:
+            raise DuplicateNameError(
+                f"Linker name '{name}' is also the identifier of a submodel: "
+                'pass a different `name` or rename the submodel'
+            )
 
         if len(submodels):
             # Get a list of submodel IDs and pop the first submodel as the one
